@@ -1,6 +1,7 @@
 package zz_verifsim
 
 import (
+	"github.com/relab/hotstuff/internal/proto/kauripb"
 	bls12 "github.com/kilic/bls12-381"
 	"math/big"
 	"crypto/sha256"
@@ -148,6 +149,7 @@ type Node struct {
 
 	committed []*hotstuff.Block // observed CommitEvents, in order
 	lastView  hotstuff.View
+	blockSenders map[hotstuff.Hash]map[hotstuff.ID]bool // transport-level senders of each proposed block
 	vcView    hotstuff.View // view partitions: the view the replica was last seen in, and since when
 	vcSince   time.Duration
 	curEvent  any // event being handled in the current step
@@ -363,7 +365,25 @@ func (nd *Node) observe() {
 		}
 	}
 	eventloop.Register(nd.el, func(e hotstuff.ProposeMsg) { seen(e) }, pri)
+	// who really handed this block to the replica: recorded while the transport injects the message (run inside
+	// AddEvent), from the transport's own knowledge of the sending connection, not from any field of the message
+	eventloop.Register(nd.el, func(e hotstuff.ProposeMsg) {
+		if m := w.curMsg; m != nil && m.to == nd && m.kind == "propose" && e.Block != nil {
+			if nd.blockSenders == nil {
+				nd.blockSenders = map[hotstuff.Hash]map[hotstuff.ID]bool{}
+			}
+			h := e.Block.Hash()
+			if nd.blockSenders[h] == nil {
+				nd.blockSenders[h] = map[hotstuff.ID]bool{}
+			}
+			nd.blockSenders[h][m.fromID] = true
+		}
+	}, pri, eventloop.UnsafeRunInAddEvent())
 	eventloop.Register(nd.el, func(e hotstuff.VoteMsg) { seen(e) }, pri)
+	if w.kauri() {
+		eventloop.Register(nd.el, func(e *kauripb.Contribution) { seen(e) }, pri)
+		eventloop.Register(nd.el, func(e comm.WaitTimerExpiredEvent) { seen(e) }, pri)
+	}
 	eventloop.Register(nd.el, func(e hotstuff.TimeoutMsg) { seen(e) }, pri)
 	eventloop.Register(nd.el, func(e hotstuff.NewViewMsg) { seen(e) }, pri)
 	eventloop.Register(nd.el, func(e hotstuff.TimeoutEvent) { seen(e) }, pri)
